@@ -10,17 +10,41 @@ search:  the generator's own symbolic bookkeeping (a third implementation): stor
          no store->load dependency through it is reported, none is demanded (Props/C06 no_edge_after_register_post_index).
          symbolic displacements (`foo(%rip)`, `[x2, #:lo12:foo]`): edge only for the identical symbol with equal tracked registers,
          never a crash (no_edge_symbol_vs_number, no_edge_different_symbols); a post-/pre-indexed FIRST store: edges according to the
-         architectural address (post_indexed_store_edge, store_load_edge_sound runs the producer's changesPost).  notes/C06.md
+         architectural address (post_indexed_store_edge, store_load_edge_sound runs the producer's changesPost).
+         a copy into a clobbered register makes it known again (copy_from_known_makes_known; fixed witness kernels `sticky-unknown`
+         run first, the generators produce the pattern).  notes/C06.md
 """
 from harness import core, dgcheck
 from harness.props.c03 import replay_common
 
 
+# fixed witness kernels, run first.  key `sticky-unknown`: a register changed beyond reconstruction (`mul x4, x4, x7`) and then
+# overwritten by a fresh copy of a tracked register (`mov x4, x2`) is known again -- the tracker used to keep it unknown for good
+# (no store->load edge 1->5); Props/C06 copy_from_known_makes_known, notes/C06.md
+WITNESSES = [
+    ("sticky-unknown", "aarch64", ["str d1, [x2, #8]", "mov x4, x2", "mul x4, x4, x7", "mov x4, x2", "ldr d2, [x4, #8]",
+                                   "fadd d3, d2, d2"]),
+    ("sticky-unknown", "x86", ["movq %rax, 8(%rbx)", "movq %rbx, %rcx", "imulq %rdx, %rcx", "movq %rbx, %rcx",
+                               "movq 8(%rcx), %rsi", "addq %rsi, %r12"]),
+]
+
+
+def witnesses(ctx):
+    """the fixed witness kernels on every model of the tier (same location, known, no second store)"""
+    for key, isa, lines in WITNESSES:
+        for arch in dgcheck.models_for(ctx, isa):
+            ctx.count("witness_kernels")
+            yield (dgcheck.Impl(isa, arch, list(lines), False),
+                   {"source": "witness", "key": key, "meta": {"same_location": True, "known": True, "second_store": False}})
+
+
 def run(ctx):
+    import itertools
+
     dgcheck.setup(ctx, "C06", ["RegTables"], ["OsacaVerif.Props.C06"])
     n = (400 if ctx.tier == "quick" else 8000) * (3 if ctx.broken else 1)
     distinct = set()
-    for im, src in dgcheck.kernels_stream(ctx, n, 10, kinds=["memdep"], real=False):
+    for im, src in itertools.chain(witnesses(ctx), dgcheck.kernels_stream(ctx, n, 10, kinds=["memdep"], real=False)):
         ctx.count("kernels")
         dgcheck.compare_dg(ctx, im)
         meta = src.get("meta") or {}
@@ -48,7 +72,8 @@ def run(ctx):
             distinct.add(repr((im.isa, im.lines)))
             if edge is None:
                 ctx.violation("store and load address the same location but no store->load dependency is reported",
-                              dict(im.info(), store=im.lines[0], load=im.lines[-2], edges=sorted("%s>%s" % e for e in im.edges())))
+                              dict(im.info(), store=im.lines[0], load=im.lines[-2], edges=sorted("%s>%s" % e for e in im.edges())),
+                              key=src.get("key"))
             else:
                 fwd = float(im.mm.get("store_to_load_forward_latency", 0) or 0)
                 base = store.latency_wo_load if store.latency_wo_load is not None else store.latency
